@@ -35,6 +35,7 @@ import (
 	"verifharness/e2e"
 	"verifharness/hx"
 	"verifharness/jar"
+	"verifharness/macho"
 	"verifharness/pe"
 	"verifharness/pgp"
 	"verifharness/ps"
@@ -57,6 +58,7 @@ var handlers = map[string]func([]string) string{
 	"APKV":  apkv.Handle,
 	"APPX":  appx.Handle,
 	"PGP":   pgp.Handle,
+	"MACHO": macho.Handle,
 	"DEB":   deb.Handle,
 	"ZIPRW": ziprw.Handle,
 	"CAB":   cab.Handle,
@@ -141,9 +143,11 @@ func forProp(prop string, g func(*bufio.Writer, uint64, string, string)) genFunc
 func init() {
 	// C05 (digests are what the specifications prescribe): PE image hash ops, PE checksum ops, APK merkle ops, ECDSA width ops
 	gens["C05"] = []genFunc{forProp("C05", pe.Gen), filtered(c09.Gen, "cksum", "fixpe", "fixpehex", "merkle"), filtered(c19.Gen, "ecdsa", "ecdsasign"), thinned(filtered(c19.Gen, "canon"), 4), forProp("C05", c18.MsiGen), forProp("C05", jar.Gen), forProp("C05", apkb.Gen), forProp("C05", cab.Gen), forProp("C05", appx.Gen), forProp("C05", pgp.Gen)}
+	gens["C05"] = append(gens["C05"], forProp("C05", macho.Gen))
 	gens["C18"] = append(gens["C18"], forProp("C18", c18.MsiGen))
 	for _, p := range []string{"C01", "C02", "C03", "C08", "C11"} {
 		gens[p] = append(gens[p], forProp(p, pe.Gen))
+		gens[p] = append(gens[p], forProp(p, macho.Gen))
 		if p != "C11" { // C11 has its own runner (crash isolation, workers); it sweeps cab/ps through the entry points
 			gens[p] = append(gens[p], forProp(p, cab.Gen))
 			gens[p] = append(gens[p], forProp(p, ps.Gen))
